@@ -271,6 +271,10 @@ func (d *Dispatcher) addPeer(
 		return nil, fmt.Errorf(
 			"bitfield length %d exceeds number of pieces %d", b.Len(), d.torrent.NumPieces())
 	}
+	// A bitfield decoded from the wire may have bits set beyond its length.
+	if i, ok := b.NextSet(b.Len()); ok {
+		return nil, fmt.Errorf("bitfield has bit %d set beyond its length %d", i, b.Len())
+	}
 
 	pstats := &peerStats{}
 	if s, ok := d.peerStats.LoadOrStore(peerID, pstats); ok {
